@@ -1750,6 +1750,13 @@ DEFECT_WITNESSES = [
 def c05_build(ctx):
     rng = ctx.rng
     cases = []
+    # secondary static tie: when the inventory of possible panic sites of /repo/src differs from the committed one, the quick
+    # tier searches with the thorough-size streams (a difference alone is no alarm: a harmless rewrite moves an unwrap)
+    from . import panics as PN
+    ctx.panic_inventory = PN.diff()
+    if ctx.panic_inventory is not None and ctx.quick:
+        C.log("panic-site inventory differs from panic_sites.json: searching with the thorough-size streams")
+        ctx.n = lambda quick, thorough: max(quick, thorough // 4)
     for op, p in DEFECT_WITNESSES:
         cases.append(mk(op, p, group="witnesses"))
     cases.append(mk("media_builder", "#EXTM3U\n#EXT-X-TARGETDURATION:18446744073709551615\n#EXTINF:1,\na\n", "1000000000", group="witnesses"))
@@ -1914,7 +1921,8 @@ PROPS["C05"] = {
     "nontrivial": lambda c, a: True,
     "rule": "malformed stream: mutants of generated and fixture playlists (token replaced by a boundary value such as -1, 2^64-1, 2^64, nan, inf, 1e400, empty, lone quote, 300-digit numbers; truncation at every kind of position; duplicated / swapped lines; multi-byte characters spliced next to = , \" @ x / :), mutants of one or two valid texts per tag and per attribute type, random texts over a tag-biased alphabet, every boundary token on every attribute type; through every text-accepting entry point (TryFrom, FromStr, builder.parse with allowances, every public tag and type parser) and, for accepted values, to_string() and the re-parse; distinct cases all count (each decides panic-or-not)",
     "explanation": "theorems: parseMedia_never_panics (every builder configuration, every string), parseMaster_never_panics, types_never_panic, tags_never_panic, show_never_panics (to_string of ANY media playlist value), items_np, buildLoop_np / build_np, items_byteRange (classifier output fits 64 bits, so ByteRange::set_start cannot fire); termination: all model functions pass Lean's termination checker; the compared observable is only 'unwound or returned'; running time is measured on the real library at 1x/2x/4x sizes (supporting evidence, coverage.timing)",
-    "extra_coverage": lambda ctx: {"timing": getattr(ctx, "timing", {})},
+    "extra_coverage": lambda ctx: {"timing": getattr(ctx, "timing", {}),
+                                   "panic_site_inventory": "equal to panic_sites.json" if getattr(ctx, "panic_inventory", None) is None else getattr(ctx, "panic_inventory")},
     "assumptions": ["panic sites of the Rust code are those modelled (slice in unquote, Duration::from_secs_f64, usize/Duration arithmetic, StableVec::insert, KeyFormatVersions::push, ByteRange::set_start, unreachable! in the writer); the harness is built with overflow checks and debug assertions so that arithmetic overflow is observable", "time bounds are measured, not proved"],
 }
 
